@@ -250,6 +250,78 @@ theorem auditResponse_rejected (hm : Hm) (sc : Spec.Server.Scan) (kn : List Octe
       simp [hoid, ho2, hfudge, herr, ho1]
   · simp only [Bool.not_eq_true', decide_eq_false_iff_not, Classical.not_not]; exact hfit
 
+/-! ### the branch "the reply fits", authenticated requests -/
+
+/-- the audit's clause "answered normally" (the response to the request without its TSIG RR being
+    `plain`), as a proposition on the decoded response -/
+def AnsweredNormally (d : Spec.DMsg) (udp cmp : Bool) (plain : Resp) : Prop :=
+  ∀ pb pd, plain = .bytes pb → Spec.specDecodeMsg pb = some pd →
+    (d.tc = true → udp = true ∧ Spec.Server.noData d = true) ∧
+    (d.tc = false → pd.tc = false → cmp = true →
+      d.rcode = pd.rcode ∧ d.aa = pd.aa ∧ sameMultiset (d.an.map rrKey) (pd.an.map rrKey) = true ∧
+      sameMultiset (d.ns.map rrKey) (pd.ns.map rrKey) = true ∧
+      subMultiset (plainRrs d.ar) (plainRrs pd.ar) = true)
+
+/-- **the audit of an authenticated request whose reply fits**: every clause of `auditResponse`, as
+    hypotheses on the decoded response -/
+theorem auditResponse_authenticated (hm : Hm) (sc : Spec.Server.Scan) (kn : List Octets) (f : RdataFields)
+    (pre : Octets) (key : Option KeyCfg) (now : Nat) (udp : Bool) (reqId : Nat) (cmp : Bool) (b : Bytes)
+    (plain : Resp) (d : Spec.DMsg) (t : Spec.DRr) (rf : RdataFields) (rkn : List Octets)
+    (hd : Spec.specDecodeMsg b = some d)
+    (hfit : auditNeed sc ⟨kn, f, pre, .authenticated, key⟩ ≤ auditLimit sc udp)
+    (hts : d.ar.filter (fun r => r.ty = 250) = [t]) (hp : parseRdata t.rdata = some rf)
+    (hl : labelsOf t.owner = some rkn)
+    (hlast : d.ar.getLast?.map (·.ty) = some 250) (hcls : t.cls = 255) (httl : t.rawTtl = 0)
+    (hkn : rkn.map (·.map lower) = kn.map (·.map lower))
+    (halg : rf.algName.map (·.map lower) = f.algName.map (·.map lower))
+    (hfudge : rf.fudge = 300) (hoid : rf.originalId = f.originalId) (hid : d.id = reqId)
+    (herr : rf.error = 0) (hopt : ∀ x ∈ d.ar, x.ty = 41 → x.rawTtl / 16777216 = 0)
+    (hrc : d.rcode ≠ 9)
+    (hmacl : rf.mac.length = (outputSizeOf f.algName).getD 0)
+    (hmac : ∃ k, key = some k ∧ rf.mac = hm k.sha256 k.secret
+        (digestInput .response (b.extract 0 t.pos).toList rf.originalId
+          { keyName := rkn, algName := rf.algName, timeSigned := rf.timeSigned, fudge := rf.fudge,
+            error := rf.error, other := rf.other } f.mac))
+    (hother : rf.other = []) (htime : rf.timeSigned = now)
+    (hdata : AnsweredNormally d udp cmp plain) :
+    (auditResponse hm sc ⟨kn, f, pre, .authenticated, key⟩ now udp reqId cmp (.bytes b) plain).1 = [] := by
+  unfold auditNeed auditLimit at hfit
+  have hx := ext_zero (d.ar.filter (fun r => r.ty = 41)) (fun x hx => by
+    rw [List.mem_filter] at hx; exact hopt x hx.1 (of_decide_eq_true hx.2))
+  obtain ⟨k, hk, hm2⟩ := hmac
+  have hext : d.rcode + 16 * (match d.ar.filter (fun r => r.ty = 41) with | [o] => o.rawTtl / 16777216 | _ => 0) ≠ 9 := by
+    rw [hx]; omega
+  unfold auditResponse
+  simp only [hd]
+  rw [if_neg]
+  · simp only [hts, hp, hl]
+    simp [hlast, hcls, httl, hkn, halg, hfudge, hoid, hid, herr, hother, htime, hmacl, hk]
+    refine ⟨hext, ?_, ?_⟩
+    · rw [hm2]; simp [hoid, htime, hfudge, herr, hother]
+    · cases plain with
+      | none => rfl
+      | panic => rfl
+      | bytes pb =>
+        simp only
+        cases hpd : Spec.specDecodeMsg pb with
+        | none => rfl
+        | some pd =>
+          obtain ⟨d1, d2⟩ := hdata pb pd rfl hpd
+          simp only
+          by_cases htc : d.tc = true
+          · obtain ⟨e1, e2⟩ := d1 htc
+            simp [htc, e1, e2]
+          · have htc' : d.tc = false := by cases hh : d.tc <;> simp_all
+            by_cases hptc : pd.tc = true
+            · simp [htc', hptc]
+            · have hptc' : pd.tc = false := by cases hh : pd.tc <;> simp_all
+              cases cmp with
+              | false => simp [htc', hptc']
+              | true =>
+                obtain ⟨f1, f2, f3, f4, f5⟩ := d2 htc' hptc' rfl
+                simp [htc', hptc', f1, f2, f3, f4, f5]
+  · simp only [Bool.not_eq_true', decide_eq_false_iff_not, Classical.not_not]; exact hfit
+
 end QV.ServerScan
 
 namespace QV.ServerContent
